@@ -42,6 +42,8 @@ BAD = {
     'idl-length': lambda pe, x: pe.Obs([x], ['e|r1'], idl=[[1, 2, 3, 4, 5], [1, 2, 3, 4, 5]]),
     'idl-samples-mismatch': lambda pe, x: pe.Obs([x], ['e|r1'], idl=[[1, 2, 3, 4, 5, 6]]),
     'four-samples': lambda pe, x: pe.Obs([x[:4]], ['e|r1']),
+    'replica-lengths-cancel': lambda pe, x: pe.Obs([np.concatenate([x, x[:1]]), np.concatenate([x, x[:3]])], ['e|r1', 'e|r2'], idl=[range(1, 8), range(1, 8)]),
+    'replica-lengths-cancel-lists': lambda pe, x: pe.Obs([x, np.concatenate([x, x[:2]])], ['e|r1', 'e|r2'], idl=[[1, 2, 3, 4, 5, 7], [1, 2, 3, 4, 5, 6]]),
     'several-ensembles': lambda pe, x: pe.Obs([x, x], ['e|r1', 'f|r1']),
     'several-ensembles-prefix': lambda pe, x: pe.Obs([x, x], ['A|r1', 'AB|r1']),
     'several-ensembles-prefix3': lambda pe, x: pe.Obs([x, x, x], ['A|r1', 'A2|r1', 'A|r2']),
